@@ -34,7 +34,7 @@ CHECKS = {
             EXPL % "; distinct texts per spec reported as the measure of interleavings reached", BASE, "6 (C08)", 900, 3600),
     "C16": (REPL % "class-T (spacetime over P/S/O/A Einsums and over cascades)" + "recording canvas stand-in; history check of createCanvas/addActivity/displayCanvas events against executed updates, point arities and stamp uniqueness",
             EXPL % "", BASE + "; canvas is a recording stand-in", "6 (C16)", 900, 3600),
-    "C19": (REPL % "omitted-mapping" + "per seed, the spec as written and variants with the omitted section written out as the independently computed canonical default must compile to byte-identical text",
+    "C19": (REPL % "omitted-mapping (classes S, O, K, P, A, A2; about one class-S spec in twenty with ten or eleven shape levels on one rank)" + "per seed, the spec as written and variants with the omitted section written out as the independently computed canonical default must compile to byte-identical text",
             EXPL % "", "trusted base: the harness's own computation of the canonical default from the YAML (gen/classes.py effective_loop_order)", "6 (C19)", 900, 3600),
     "C10": ("deterministic simulation with a schedule seam: teaal.ir.flow_graph's topological_sort replaced, per unit, by Kahn's algorithm whose tie-breaks the simulator's PRNG decides (plus the real hash-seed orders); tie-break strategies: newest-first, oldest-first, uniformly random, and targeted ones scheduling one PRNG-chosen node as early / as late as its dependences allow; order / nesting / hoisting invariants on (flow graph, statement sequence) of every flow graph the translation builds, no name read before the statement that binds it, and dense-model agreement of the full translation under every tie-break",
             "seeded exploration of (specification x hash seed x tie-break stream): 8 quick / 48 thorough linear extensions per (spec, seed); replayable (recorded picks); evidence, not proof",
